@@ -56,6 +56,19 @@ theorem generate_primes_correct (e : Env) (he : GenSpec e) (vmax mx : ℕ) (hv :
   injection h2 with h3; injection h3 with _ h4
   exact ⟨h, h4 ▸ hP⟩
 
+/-- **the generated vector as phi.cpp reads it**: `genNPrimesFn … i = primes[i]` meets the hypotheses `prime 0 = 0`, `prime i = p i`
+    (`1 ≤ i ≤ a`) of `callOK_realTop` (PcProofs/ClosePhi.lean) for every `a ≤ π(N)`, `N ≤ min(vmax, 2^64-1)` — phi.cpp: `N = √x` -/
+theorem generate_n_primes_for_phi (e : Env) (he : GenSpec e) (vmax a nthHint N : ℕ) (ha : a ≤ Nat.primeCounting N) (hN : N ≤ umax)
+    (hNv : N ≤ vmax) :
+    pcGenerateNPrimes e vmax a nthHint = .ok (0 :: firstNPrimes a) ∧
+    genNPrimesFn e vmax a nthHint 0 = 0 ∧ ∀ i, 1 ≤ i → i ≤ a → genNPrimesFn e vmax a nthHint i = Spec.p i :=
+  genNPrimesFn_spec e he vmax a nthHint N ha hN hNv
+
+/-- the by-hand branch of `store_primes` (StorePrimes.hpp:88-97): `[2^64-59, 2^64-1]` yields the last 64-bit prime alone, no
+    `primesieve_error` -/
+theorem store_primes_last (e : Env) (he : GenSpec e) : storePrimes e umax maxPrime64 umax = .ok [maxPrime64] :=
+  storePrimes_last e he
+
 /-- `generate_n_primes<T>(a)` over the REAL sieving core (`coreEnvTo`, windows below `B`; only the float assumption left, a theorem
     for `B = 2^50`) -/
 theorem generate_n_primes_core (fl : Floats) (batch : ℕ → ℕ) (l1raw kib B : ℕ) (hB : B ≤ 2 ^ 64)
@@ -97,6 +110,11 @@ example : (match pcGeneratePrimes (refEnv fl0 (fun _ => 3)) 65535 30 with | .ok 
     [0, 2, 3, 5, 7, 11, 13, 17, 19, 23, 29] := by decide +kernel
 example : (match storePrimes (refEnv fl0 (fun _ => 1)) 65535 10 30 with | .ok l => l | .error _ => []) = [11, 13, 17, 19, 23, 29] := by
   decide +kernel
+/-- `generate_n_primes_for_phi` on a concrete instance: `a = 4 ≤ π(10)`; the function form evaluated by the kernel -/
+example : genNPrimesFn (refEnv fl0 (fun _ => 2)) 65535 4 0 0 = 0 ∧
+    ∀ i, 1 ≤ i → i ≤ 4 → genNPrimesFn (refEnv fl0 (fun _ => 2)) 65535 4 0 i = Spec.p i :=
+  (generate_n_primes_for_phi (refEnv fl0 (fun _ => 2)) (refEnv_spec _ _) 65535 4 0 10 (by decide) (by decide) (by decide)).2
+example : (List.range 6).map (genNPrimesFn (refEnv fl0 (fun _ => 2)) 65535 4 0) = [0, 2, 3, 5, 7, 0] := by decide +kernel
 /-- the `PrimesIn` hypothesis of `store_n_primes_correct` on a concrete instance -/
 example : PrimesIn (refPrimes 10 100) 10 100 ∧ 4 ≤ (refPrimes 10 100).length := ⟨refPrimes_spec 10 100, by decide +kernel⟩
 /-- the real core below 2^50 meets every hypothesis of the `_core` theorems (no float assumption left) -/
@@ -113,5 +131,7 @@ end Pc.C18Closed
 #print axioms Pc.C18Closed.generate_n_primes_iff
 #print axioms Pc.C18Closed.store_primes_correct
 #print axioms Pc.C18Closed.generate_primes_correct
+#print axioms Pc.C18Closed.generate_n_primes_for_phi
+#print axioms Pc.C18Closed.store_primes_last
 #print axioms Pc.C18Closed.generate_n_primes_core
 #print axioms Pc.C18Closed.generate_primes_core
